@@ -157,6 +157,25 @@ func vkBehaviours() []vkBehaviour {
 		vkAnswerB("ans-extra-victim-dname", 0, func(c *vkBCtx, m *dns.Msg) {
 			m.Answer = append(m.Answer, vkRR("v.t. 300 IN DNAME "+c.zone))
 		}),
+		// ---- an answer record of ANOTHER CLASS (CH) for the IN question: "a reply must match the outstanding query's …
+		// question" — its class included; such a record answers another question
+		{Name: "ans-wrong-class", Fn: func(c *vkBCtx, m *dns.Msg) bool {
+			if c.q.Qtype != dns.TypeA {
+				return false
+			}
+			rr := &dns.A{Hdr: dns.RR_Header{Name: c.q.Name, Rrtype: dns.TypeA, Class: dns.ClassCHAOS, Ttl: 300}, A: vkA(c.q.Name, vkPoisonA).(*dns.A).A}
+			m.Answer, m.Ns, m.Extra = []dns.RR{rr}, nil, nil
+			m.Authoritative, m.Rcode = true, dns.RcodeSuccess
+			return true
+		}},
+		// ---- a NOERROR response without answer whose authority section holds neither SOA, CNAME nor NS (a lone TXT; an
+		// empty non-terminal's NSEC records look the same): on a MINIMISED question it says nothing about the client's question
+		{Name: "auth-junk-only", Fn: func(c *vkBCtx, m *dns.Msg) bool {
+			m.Answer, m.Extra = nil, nil
+			m.Ns = []dns.RR{vkRR(c.q.Name + " 300 IN TXT \"junk\"")}
+			m.Authoritative, m.Rcode = true, dns.RcodeSuccess
+			return true
+		}},
 		// ---- authority section: NS sets for zones the sender has no authority over
 		vkAnswerB("auth-victim-ns", 0, func(c *vkBCtx, m *dns.Msg) {
 			m.Ns = append(m.Ns, vkNS("v.t.", c.evil))
@@ -288,6 +307,15 @@ func vkBehaviours() []vkBehaviour {
 		}),
 		vkValidRefB("ref-mixed-owner-rev", 0, func(c *vkBCtx, h string) ([]dns.RR, []dns.RR) {
 			return []dns.RR{vkNS("v.t.", c.evil), vkNS(c.sub, h)}, []dns.RR{vkA(h, c.zaddr), vkA(c.evil, vkPoisonA)}
+		}),
+		// the stray record in the MIDDLE of the set (a check that looks at the first or the last record only passes it)
+		vkValidRefB("ref-mixed-owner-mid", 0, func(c *vkBCtx, h string) ([]dns.RR, []dns.RR) {
+			return []dns.RR{vkNS(c.sub, h), vkNS("v.t.", c.evil), vkNS(c.sub, "ns2."+c.sub)}, []dns.RR{vkA(h, c.zaddr), vkA(c.evil, vkPoisonA), vkA("ns2."+c.sub, c.zaddr)}
+		}),
+		vkValidRefB("ref-mixed-class-mid", 0, func(c *vkBCtx, h string) ([]dns.RR, []dns.RR) {
+			ch := vkNS(c.sub, c.evil)
+			ch.Header().Class = dns.ClassCHAOS
+			return []dns.RR{vkNS(c.sub, h), ch, vkNS(c.sub, "ns2."+c.sub)}, []dns.RR{vkA(h, c.zaddr), vkA(c.evil, vkPoisonA), vkA("ns2."+c.sub, c.zaddr)}
 		}),
 		vkValidRefB("ref-mixed-owner-sibling-zone", 1, func(c *vkBCtx, h string) ([]dns.RR, []dns.RR) {
 			// two owners, both below the asked zone: one on the path, one not
